@@ -143,13 +143,13 @@ Definition find_tag (tags : list str) (tag : str) : option nat := find_tag_lc ta
 (* Loop::add_values(new_values, pos) *)
 Definition loop_add_values (tags vals new : list str) (pos : Z) : list str :=
   let w := length tags in
-  if ((0 <=? pos)%Z && (Z.to_nat pos * w <? length vals))
+  if ((0 <=? pos)%Z && (pos * Z.of_nat w <? Z.of_nat (length vals))%Z)
   then firstn (Z.to_nat pos * w) vals ++ new ++ skipn (Z.to_nat pos * w) vals
   else vals ++ new.
 
-(* Loop::length(): values.size() / tags.size() -- integer division by zero when there are no tags *)
-Definition loop_length (tags vals : list str) : option nat :=
-  match tags with [] => None | _ => Some (length vals / length tags) end.
+(* Loop::length(), as repaired: 0 for a loop without tags (the pinned snapshot divided by zero) *)
+Definition loop_length (tags vals : list str) : nat :=
+  match tags with [] => 0 | _ => length vals / length tags end.
 
 (* Loop::set_all_values(columns): None = exception *)
 Fixpoint transpose_rows (h : nat) (cols : list (list str)) : list str :=
@@ -183,11 +183,7 @@ Record lres := mkL { l_tags : list str; l_vals : list str; l_st : status; l_out 
 Definition loop_apply (tags vals : list str) (o : loopop) : lres :=
   let same st := mkL tags vals st [] in
   match o with
-  | LLook =>
-    match loop_length tags vals with
-    | None => same SUB
-    | Some n => mkL tags vals SOk (num (length tags) :: num n :: tags ++ vals)
-    end
+  | LLook => mkL tags vals SOk (num (length tags) :: num (loop_length tags vals) :: tags ++ vals)
   | LAddRow new pos =>
     if length new =? length tags then mkL tags (loop_add_values tags vals new pos) SOk [] else same SErr
   | LAddValues new pos =>
@@ -200,24 +196,19 @@ Definition loop_apply (tags vals : list str) (o : loopop) : lres :=
     if length vals <? length tags then same SErr
     else mkL tags (firstn (length vals - length tags) vals) SOk []
   | LMoveRow o n =>
-    match loop_length tags vals with
-    | None => same SErr
-    | Some len =>
-      if ((0 <=? o)%Z && (o <? Z.of_nat len)%Z && (0 <=? n)%Z && (n <? Z.of_nat len)%Z)
-      then mkL tags (move_chunk (length tags) (Z.to_nat o) (Z.to_nat n) vals) SOk []
-      else same SErr
-    end
+    let len := loop_length tags vals in
+    if ((0 <=? o)%Z && (o <? Z.of_nat len)%Z && (0 <=? n)%Z && (n <? Z.of_nat len)%Z)
+    then mkL tags (move_chunk (length tags) (Z.to_nat o) (Z.to_nat n) vals) SOk []
+    else same SErr
   | LAddColumns names value pos =>
     if negb (forallb is_tag names) then same SErr
-    else match loop_length tags vals with
-         | None => same SUB
-         | Some len =>
-           let w := length tags in
-           (* min((size_t)pos, old_width) *)
-           let upos := if (pos <? 0)%Z then w else Nat.min (Z.to_nat pos) w in
-           mkL (firstn upos tags ++ names ++ skipn upos tags)
-               (insert_cols len w (length names) upos value vals) SOk []
-         end
+    else
+      let len := loop_length tags vals in
+      let w := length tags in
+      (* min((size_t)pos, old_width): a negative int is a huge size_t *)
+      let upos := if ((pos <? 0)%Z || (Z.of_nat w <=? pos)%Z) then w else Z.to_nat pos in
+      mkL (firstn upos tags ++ names ++ skipn upos tags)
+          (insert_cols len w (length names) upos value vals) SOk []
   | LRemoveColumn name =>
     match find_tag tags name with
     | None => same SErr
@@ -492,11 +483,11 @@ Definition tab_loop (items : list item) (t : table) : option (nat * list str * l
   | None => None
   end.
 
-(* Table::length(); None = division by zero *)
+(* Table::length(); None = the loop item is not a loop (cannot happen for a fresh table) *)
 Definition tab_length (items : list item) (t : table) : option nat :=
   match t_loop t with
   | Some _ => match tab_loop items t with
-              | Some (_, tags, vals) => loop_length tags vals
+              | Some (_, tags, vals) => Some (loop_length tags vals)
               | None => None
               end
   | None => Some (if t_ok t then 1 else 0)
@@ -620,12 +611,10 @@ Definition tab_apply (items : list item) (t : table) (o : tabop) : outcome :=
         | Some (i, tags, vals) =>
           let w := length tags in
           (* size_t arithmetic: a negative int becomes huge *)
-          if ((s <? 0)%Z || (e <? 0)%Z) then err items1
-          else
-            let sp := Z.to_nat s * w in
-            let ep := Z.to_nat e * w in
-            if ((ep <=? sp) || (length vals <? ep)) then err items1
-            else ok_ (set_nth i (Loop tags (firstn sp vals ++ skipn ep vals)) items1)
+          let sp := (s * Z.of_nat w)%Z in
+          let ep := (e * Z.of_nat w)%Z in
+          if ((s <? 0)%Z || (e <? 0)%Z || (ep <=? sp)%Z || (Z.of_nat (length vals) <? ep)%Z) then err items1
+          else ok_ (set_nth i (Loop tags (firstn (Z.to_nat sp) vals ++ skipn (Z.to_nat ep) vals)) items1)
         | None => ub items1
         end
       | _ => mkOut items1 st []
@@ -789,11 +778,8 @@ Definition blk_apply (items : list item) (o : op) : outcome :=
     | Some (i, c) =>
       match nth_error items i with
       | Some (Loop tags vals) =>
-        match loop_length tags vals with
-        | Some len => oko items (num 1 :: num i :: num c :: num len
-                                 :: column_values (length tags) c (length vals) vals)
-        | None => ub items
-        end
+        oko items (num 1 :: num i :: num c :: num (loop_length tags vals)
+                   :: column_values (length tags) c (length vals) vals)
       | Some (Pair _ v) => oko items [num 1; num i; num c; num 1; v]
       | _ => ub items
       end
